@@ -500,15 +500,29 @@ Lemma pres : fs_pre = ["platform.ConvertError"; "commonerrors.ConvertContextErro
   io_pre = ["commonerrors.ConvertContextError"]%string /\ proc_pre = ["commonerrors.ConvertContextError"]%string.
 Proof. vm_compute. auto. Qed.
 
+Lemma filter_eqb_seq k n : (k < n)%nat -> filter (fun k' => Nat.eqb k k') (seq 0 n) = [k].
+Proof.
+  intro Hk.
+  assert (Sq : seq 0 n = seq 0 k ++ k :: seq (S k) (n - S k)).
+  { replace n with (k + S (n - S k))%nat at 1 by lia. rewrite seq_app. reflexivity. }
+  rewrite Sq. rewrite filter_app. simpl. rewrite Nat.eqb_refl.
+  assert (Z1 : forall a l, (forall x, In x l -> x <> a) -> filter (fun k' => Nat.eqb a k') l = []).
+  { intros a l. induction l as [|x l IH]; simpl; auto. intro H.
+    destruct (Nat.eqb a x) eqn:Q; [apply Nat.eqb_eq in Q; exfalso; apply (H x); auto|]. apply IH. intros; apply H; auto. }
+  rewrite !Z1; auto; intros x I; apply in_seq in I; lia.
+Qed.
+
+Lemma b_is_wrap_sent m k k' : b_is (BWrap m (BK k)) (BK k') = Nat.eqb k k'.
+Proof. cbn [b_is b_same]. rewrite !orb_false_r. reflexivity. Qed.
+
+Lemma b_is_sent k k' : b_is (BK k) (BK k') = Nat.eqb k k'.
+Proof. cbn [b_is b_same]. rewrite !orb_false_r. reflexivity. Qed.
+
 Lemma kinds_wrap_sent m k : (k < nkinds)%nat -> b_kinds (BWrap m (BK k)) = [k] /\ b_kinds (BK k) = [k].
 Proof.
-  intro Hk. assert (E : forall e, (forall k', b_is e (BK k') = Nat.eqb k k') -> b_kinds e = [k]).
-  { intros e A. unfold b_kinds. rewrite (filter_ext _ (fun k' => Nat.eqb k k')) by (intro; apply A).
-    pose proof (kind_of_exactly (Sent k) k Hk) as Q. unfold kind_of in Q.
-    rewrite (filter_ext _ (fun k' => Nat.eqb k k')) in Q.
-    - apply Q. apply lib_exactly. constructor.
-    - intro a. simpl. rewrite orb_false_r. reflexivity. }
-  split; apply E; intro k'; simpl; rewrite ?orb_false_r; reflexivity.
+  intro Hk. unfold b_kinds. split.
+  - rewrite (filter_ext _ (fun k' => Nat.eqb k k')) by (intro; apply b_is_wrap_sent). apply filter_eqb_seq; auto.
+  - rewrite (filter_ext _ (fun k' => Nat.eqb k k')) by (intro; apply b_is_sent). apply filter_eqb_seq; auto.
 Qed.
 
 (* the kind a raw context error stands for *)
@@ -529,8 +543,9 @@ Proof.
   assert (Hk : (k < nkinds)%nat) by (destruct Kc; subst; auto).
   assert (Ak : b_anyl (BK k) b_ctx_kinds = true) by (destruct Kc; subst; auto).
   split; [|split].
-  - unfold conv_fs, run_conv, run_pre. rewrite P1. simpl fold_left. unfold pre_step at 2. simpl String.eqb. cbv iota.
-    unfold conv_platform.
+  - assert (U : conv_fs e = then_cases (then_cases (run_cases platform_cases e) (fun e0 => CErr (b_convert_ctx e0))) (run_cases fs_cases))
+      by (unfold conv_fs, run_conv, run_pre; rewrite P1; reflexivity).
+    rewrite U. clear U.
     destruct (run_cases_shape platform_cases e) as [E|(cc & I & E)]; rewrite E.
     + simpl. rewrite CK. destruct (fs_ctx_kind_pass []) as (_ & _ & F3 & F4).
       destruct Kc; subst k; rewrite ?F3, ?F4; simpl; f_equal; apply (kinds_wrap_sent []); auto.
@@ -542,8 +557,10 @@ Proof.
         assert (b_convert_ctx (BWrap m (BK k)) = BWrap m (BK k)) as -> by reflexivity.
         destruct (fs_ctx_kind_pass m) as (F1 & F2 & _).
         destruct Kc; subst k; rewrite ?F1, ?F2; simpl; f_equal; apply kinds_wrap_sent; auto.
-  - unfold conv_io, run_conv, run_pre. rewrite P2. simpl. rewrite CK.
+  - assert (U : conv_io e = run_cases io_cases (b_convert_ctx e)) by (unfold conv_io, run_conv, run_pre; rewrite P2; reflexivity).
+    rewrite U, CK.
     destruct Kc; subst k; rewrite ?I1, ?I2; simpl; f_equal; apply (kinds_wrap_sent []); auto.
-  - unfold conv_proc, run_conv, run_pre. rewrite P3. simpl. rewrite CK.
+  - assert (U : conv_proc e = run_cases proc_cases (b_convert_ctx e)) by (unfold conv_proc, run_conv, run_pre; rewrite P3; reflexivity).
+    rewrite U, CK.
     destruct Kc; subst k; rewrite ?I3, ?I4; simpl; f_equal; apply (kinds_wrap_sent []); auto.
 Qed.
